@@ -370,7 +370,7 @@ func firstLine(s string) string {
 }
 
 var reUnitDir = regexp.MustCompile(`(?:^|[\s/])([su]\d+)/`)
-var reLoadErr = regexp.MustCompile(`import cycle not allowed|is not in std|no required module provides|cannot find package|malformed import path|no Go files in|^pattern |matched no packages`)
+var reLoadErr = regexp.MustCompile(`import cycle not allowed|is not in std|no required module provides|cannot find package|cannot find module providing|malformed import path|no Go files in|^pattern |matched no packages`)
 
 // goBuild runs `go build` (or `go vet`) for the directories dirs of the module mod and returns the output lines
 // per directory. A package that cannot even be LOADED (import cycle, missing package) makes the go command stop
